@@ -375,7 +375,9 @@ func (e *Engine) timeModel(st *State, fn *ssa.Function, full string, args []Valu
 		return IntV{c.Sub(nanos(args[0]), t)}, true
 	case "time.Sleep":
 		return nil, true
-	case "time.NewTimer", "time.AfterFunc":
+	case "(*time.Ticker).Stop":
+		return nil, true
+	case "time.NewTimer", "time.AfterFunc", "time.NewTicker":
 		// A timer is modelled as already expired: its channel holds one tick. Code that selects
 		// on it together with other channels takes the other ready cases first (sequential select
 		// examines cases in source order; the code under test lists timers last except for pure
@@ -391,7 +393,13 @@ func (e *Engine) timeModel(st *State, fn *ssa.Function, full string, args []Valu
 		if full == "time.AfterFunc" {
 			cnt = c.BV(0, 32)
 		}
-		st.Heap[o] = &ChanContent{Cap: 1, Count: cnt, Slots: []Value{tick}, Closed: c.False}
+		ccn := &ChanContent{Cap: 1, Count: cnt, Slots: []Value{tick}, Closed: c.False}
+		if full == "time.NewTicker" {
+			// a ticker delivers TickerTicks ticks, then time is considered to have passed beyond
+			// whatever timeout it is paired with (the timer's case is taken next)
+			ccn.Refill = e.TickerTicks - 1
+		}
+		st.Heap[o] = ccn
 		nf := append([]Value{}, tv.F...)
 		nf[ci] = mkPtr(c, o)
 		to := e.allocVal(st, tt, StructV{nf}, "timer")
